@@ -24,6 +24,10 @@ CHECKS = {
   text="Theorem C01_load_conforms (coq/Props/C01.v): for EVERY registry with arbitrary recognisers/savorize functions/raising constructors, every scalar oracle, declared type and composed document (incl. the empty stream), if the load model returns a value it conforms to the declared type all the way down (conforms: inductive predicate over values; classes: registered concrete subclass whose constructor received a conforming argument per parameter or none for a defaulted one, extras only as plain ordered mapping). Proof: recogniser soundness -> process establishes the well_tagged invariant -> construction of a well-tagged node conforms (induction on fuel and type), independent of the constructor's redundant type_matches pass.",
   note="Trusted: Coq kernel; the hand-written load model (Model/Recognize.v, Loader.v) is tied to yatiml by differential execution (vm_compute) of ~900 (thorough ~20k) generated (class model, document) cases per run, in the direction 'implementation returns a value => model returns the same value'; scalar values other than str/null come from PyYAML through per-case oracle tables (oracle_wfb checked per case); PyYAML's composer is shared, not modelled. Python-side conformance oracle judges every returned value independently.",
   technique=TECH, design='6 C01, 5'),
+ 'C16': dict(
+  text="Theorems in coq/Props/C16.v: each require_* helper of the model returns normally iff its documented condition holds (require_scalar over any list of valid scalar types, require_mapping/sequence, require_attribute present / recognisable by the loader's own recognize with non-empty result, require_attribute_value(_not) on a uniquely present str-keyed attribute), and value checks reject a missing attribute. The helpers are functions node -> verdict in the model; 'never modify the node' is observed on every tie case (and was violated before fix 5cbeffb).",
+  note="Trusted: Coq kernel; Model/Recognize.v (require, recognize) tied to yatiml by running ~5000 (thorough: the full product, ~11k) helper calls on the real UnknownNode with the loader's own Recognizer and comparing verdicts inside Coq, plus a docstring-derived Python oracle and a node-unchanged check.",
+  technique=TECH, design='6 C16'),
 }
 
 REASON_TODO = 'check not built yet (work in progress; DESIGN.md section 11 gives the build order)'
